@@ -47,7 +47,7 @@ MulClasses(xs) ==
   ELSE IF CountC(xs, "inf") + CountC(xs, "ninf") > 0 THEN {"inf", "ninf", "cplx", "nan"}
   ELSE IF CountC(xs, "sym") > 0 THEN {"sym", "fin", "zero"}
   ELSE IF CountC(xs, "cplx") > 0 THEN {"cplx", "fin", "zero"}
-  ELSE {"fin", "zero", "inf", "ninf"}                        \* float under/overflow
+  ELSE {"fin", "sym", "zero", "inf", "ninf"}                 \* "sym": returned as a (new) quantity object; float under/overflow
 AddClasses(xs) ==
   IF CountC(xs, "nan") > 0 THEN {"nan"}
   ELSE IF CountC(xs, "inf") > 0 /\ CountC(xs, "ninf") > 0 THEN {"nan"}
